@@ -468,8 +468,10 @@ Print Assumptions C13_view_sound.
 (** format_parse_roundtrip, GENERAL form.  PARTIAL -- side conditions that remain:
     (1) the items are of the supported kinds and have a documented rendering for the value
         ([doc_item]; excludes %s, %Z, %::z %:::z %#z, %+, RFC 2822, and %C %y %g on negative years);
-    (2) the text is accepted by [unambiguous_b] (hypothesis, decidable for a given value; the variant
-        [unambiguous_ws_b] for space-padded numbers right after white space is not lifted);
+    (2) the reader takes the text back ([reader_takes]: accepted by [unambiguous_b], or by
+        [unambiguous_ws_b] where white space of the format takes the space padding of the next number
+        with it; a hypothesis here, decidable for a given value, discharged for every value by the
+        class theorems below);
     (3) the field set the reader builds contains a documented sufficient combination
         ([date_comb_b Y IY] / [time_comb_b], decidable): each year group absent or given in full, or as
         century + two-digit year, or as the two-digit year alone when the (ISO) year is in 1970..=2069;
@@ -482,7 +484,7 @@ Print Assumptions C13_view_sound.
 Theorem C13_general_date_roundtrip_partial : forall y o d items texts ws,
   Proofs.C08Sweeps.repr y o d ->
   Forall2 (doc_item (sv_of_date (Spec.Gregorian.dn_of_yo y o)) None) items texts ->
-  unambiguous_b (combine items texts) [] = Some ws ->
+  reader_takes (combine items texts) ws ->
   date_comb_b y (fst (Spec.Gregorian.iso_of_dn (Spec.Gregorian.dn_of_yo y o))) (apply_ws ws Model.Parsed.parsed_new) = true ->
   Model.Format.write_items (Model.Format.fa_of_date d) items [] = Model.Format.fok (List.concat texts) /\
   (let+ p := parse Model.Parsed.parsed_new (List.concat texts) items in pr_of (Model.Parsed.to_naive_date p)) = pok d.
@@ -492,7 +494,7 @@ Print Assumptions C13_general_date_roundtrip_partial.
 Theorem C13_general_time_roundtrip_partial : forall t on items texts ws,
   valid_time t -> (forall n, on = Some n -> 0 <= n <= 999999999) ->
   Forall2 (doc_item (sv_of_time t) on) items texts ->
-  unambiguous_b (combine items texts) [] = Some ws ->
+  reader_takes (combine items texts) ws ->
   time_comb_b (apply_ws ws Model.Parsed.parsed_new) = true ->
   Model.Format.write_items (Model.Format.fa_of_time t) items [] = Model.Format.fok (List.concat texts) /\
   (let+ p := parse Model.Parsed.parsed_new (List.concat texts) items in pr_of (Model.Parsed.to_naive_time p))
@@ -505,7 +507,7 @@ Print Assumptions C13_general_time_roundtrip_partial.
 Theorem C13_general_ndt_roundtrip_partial : forall y o d t on items texts ws,
   Proofs.C08Sweeps.repr y o d -> valid_time t -> (forall n, on = Some n -> 0 <= n <= 999999999) ->
   Forall2 (doc_item (sv_of_ndt (Spec.Gregorian.dn_of_yo y o) t) on) items texts ->
-  unambiguous_b (combine items texts) [] = Some ws ->
+  reader_takes (combine items texts) ws ->
   date_comb_b y (fst (Spec.Gregorian.iso_of_dn (Spec.Gregorian.dn_of_yo y o))) (apply_ws ws Model.Parsed.parsed_new) = true ->
   time_comb_b (apply_ws ws Model.Parsed.parsed_new) = true ->
   Model.Format.write_items (Model.Format.fa_of_ndt (Model.DateTime.mk_ndt d t)) items [] = Model.Format.fok (List.concat texts) /\
@@ -555,8 +557,10 @@ Print Assumptions C13_general_members.
     item (supported kinds except %C %y %g, whose two-digit / century forms are not printed-and-read for
     negative years) either fills the reader's width (zero padded two-digit fields, %j, %f; the
     one-digit fields) or is followed by text that cannot start with a digit -- a year always needs
-    that; a white-space item is not followed by text that can start with white space; %.f %.3f %.6f
-    %.9f are followed by neither a digit nor, for %.f, a dot; literals are ASCII.  [it_kind_ok] says
+    that; a white-space item is followed by text that cannot start with white space or by a space-padded
+    number (%e %k %l ...: the white space takes the padding with it, [unambiguous_ws_b]), not by another
+    white-space item; %.f %.3f %.6f %.9f are followed by neither a digit nor, for %.f, a dot; literals
+    are ASCII.  [it_kind_ok] says
     the value has the fields the items print; [static_date_ok] / [static_time_ok] decide the
     sufficient combination on the fields the items write ([sfields]); [frac_class_ok k] that all
     fraction items print the same precision [k].  The class is a decidable under-approximation of
@@ -564,8 +568,8 @@ Print Assumptions C13_general_members.
 Theorem C13_class_accepted_for_every_value : forall sv on, sv_bounds sv ->
   (forall o, Spec.StrftimeDoc.sv_off sv = Some o -> o mod 60 = 0) -> forall items texts,
   static_ok items = true -> Forall2 (doc_item sv on) items texts ->
-  exists ws, unambiguous_b (combine items texts) [] = Some ws.
-Proof. exact static_accept. Qed.
+  exists ws, unambiguous_ws_b (combine items texts) [] = Some ws.
+Proof. exact static_accept_ws. Qed.
 Print Assumptions C13_class_accepted_for_every_value.
 
 Theorem C13_class_date_roundtrip : forall items,
@@ -660,12 +664,17 @@ Theorem C13_class_ndt_parse_from_str : forall fmt items k,
 Proof. exact class_ndt_parse_from_str. Qed.
 Print Assumptions C13_class_ndt_parse_from_str.
 
-(* "%A, %d %B %Y %I:%M:%S%.3f %p", "%d/%m/%Y %H:%M", "%FT%T%.f" are of the class; "%D %R" (two-digit year) is not *)
+(* "%A, %d %B %Y %I:%M:%S%.3f %p", "%d/%m/%Y %H:%M", "%FT%T%.f" are of the class; "%D %R" (two-digit year) is not;
+   %c (= "%a %b %e %H:%M:%S %Y"), "%e %B %Y, %l:%M %p" and "%v %T" are: for every NaiveDateTime v,
+   NaiveDateTime::parse_from_str(&v.format("%c").to_string(), "%c") = Ok(v to the second) *)
 Example C13_class_format_strings :
   fmt_ndt_class 3 [37;65;44;32;37;100;32;37;66;32;37;89;32;37;73;58;37;77;58;37;83;37;46;51;102;32;37;112] = true /\
   fmt_ndt_class 9 [37;100;47;37;109;47;37;89;32;37;72;58;37;77] = true /\
   fmt_ndt_class 9 [37;70;84;37;84;37;46;102] = true /\
-  fmt_ndt_class 9 [37;68;32;37;82] = false.
+  fmt_ndt_class 9 [37;68;32;37;82] = false /\
+  fmt_ndt_class 9 [37;99] = true /\
+  fmt_ndt_class 9 [37;101;32;37;66;32;37;89;44;32;37;108;58;37;77;32;37;112] = true /\
+  fmt_ndt_class 9 [37;118;32;37;84] = true.
 Proof. exact class_format_strings. Qed.
 Print Assumptions C13_class_format_strings.
 
@@ -680,7 +689,7 @@ Theorem C13_general_dtz_roundtrip_partial : forall yu ou du su fu off on items t
   let sv := sv_of_dtz (Spec.Gregorian.dn_of_yo yl ol) tl off in
   valid_dtz yu ou z -> (forall k, on = Some k -> 0 <= k <= 999999999) ->
   Forall2 (doc_item sv on) items texts ->
-  unambiguous_b (combine items texts) [] = Some ws ->
+  reader_takes (combine items texts) ws ->
   date_comb_b yl (fst (Spec.Gregorian.iso_of_dn (Spec.Gregorian.dn_of_yo yl ol))) (apply_ws ws Model.Parsed.parsed_new) = true ->
   time_comb_b (apply_ws ws Model.Parsed.parsed_new) = true ->
   some_b (Model.Parsed.p_offset (apply_ws ws Model.Parsed.parsed_new)) = true ->
